@@ -27,6 +27,21 @@ MASKS = {"u8": 8, "u16": 16, "u32": 32, "u64": 64, "u128": 128, "usize": 64,
 SIGNED = {"i8", "i16", "i32", "i64", "i128", "isize"}
 
 
+import os as _os
+_COVER = set() if _os.environ.get("BSQ_COVER") else None
+
+
+def _dump_cover():
+    if _COVER is not None:
+        with open(_os.environ["BSQ_COVER"], "a") as fh:
+            for x in sorted(_COVER):
+                fh.write(x + "\n")
+
+
+import atexit as _atexit
+_atexit.register(_dump_cover)
+
+
 class Budget(Exception):
     pass
 
@@ -692,6 +707,8 @@ class Analysis:
 
     def run(self, body, args=(), depth=0, init_env=None, parent=None):
         self.eng.stats["bodies"] += 1
+        if _COVER is not None:
+            _COVER.add(body.get("path", "?"))
         frame = Frame(self.eng, body, list(args), depth, self.policy, parent)
         if init_env:
             frame.env.update(init_env)
